@@ -283,15 +283,22 @@ func (e *Enc) wellFormed(v *smt.Term, t types.Type, st *State) *smt.Term {
 	return e.wellFormedB(v, t, st, st.Alloc)
 }
 
-// wellFormedAt: a value read from heap hn. If that heap has not been written since function entry the value was
-// stored before entry, so whatever it points to was allocated before entry (it cannot alias an object of this activation).
-func (e *Enc) wellFormedAt(v *smt.Term, t types.Type, st *State, hn string) *smt.Term {
-	if hn != "" && e.Alloc0 != nil {
+// wellFormedAt: a value read from heap hn at object `from`. If that heap has not been written since function entry
+// AND the object read existed at entry, the value was stored before entry, so whatever it points to was allocated
+// before entry (it cannot alias an object of this activation). Objects allocated later may have been initialised by
+// callees (a contract need not list a heap it only writes on fresh objects), so nothing is assumed for them.
+func (e *Enc) wellFormedAt(v *smt.Term, t types.Type, st *State, hn string, from *smt.Term) *smt.Term {
+	cur := e.wellFormedB(v, t, st, st.Alloc)
+	if hn != "" && e.Alloc0 != nil && from != nil {
 		if _, written := st.Heaps[hn]; !written {
-			return e.wellFormedB(v, t, st, e.Alloc0)
+			pre := e.wellFormedB(v, t, st, e.Alloc0)
+			if pre == cur {
+				return cur
+			}
+			return e.C.Ite(e.C.Cmp("bvule", from, e.Alloc0), pre, cur)
 		}
 	}
-	return e.wellFormedB(v, t, st, st.Alloc)
+	return cur
 }
 
 func (e *Enc) wellFormedB(v *smt.Term, t types.Type, st *State, alloc *smt.Term) *smt.Term {
